@@ -534,6 +534,7 @@ func runC07(e *Engine, r *Report) {
 	ruleRemovedLeaderStepsDown(e, r)
 	ruleNotifyApplied(e, r)
 	ruleConfigChangeNeverSkipped(e, r)
+	ruleApplyIndexAtomic(e, r)
 	ruleBootstrapSorted(e, r)
 	ruleCampaignPredicate(e, r)
 	ruleElectionMessageGuard(e, r)
